@@ -49,7 +49,9 @@ TYPES = ["int", "int32", "int64", "uint8", "float64", "string", "bool", "MyInt",
          # slices whose elements are pointers to convertible types / values of a package the setup file does not import
          "[]*S3", "[]*MyInt", "ext.Box", "[]ext2.T", "ext2.Code",
          # pointer to a predeclared named type, and the type everything pointer-like converts to
-         "*error", "unsafe.Pointer"]
+         "*error", "unsafe.Pointer",
+         # pointer to an interface: it has no methods, whatever the interface declares
+         "*fmtStringer"]
 def main():
     n = len(TYPES)
     out = [HEADER, "type Src struct {\n"]
